@@ -5,7 +5,7 @@
 use std::collections::HashSet;
 
 use crate::api::*;
-use crate::c06::{enabled_ops, starts, Start};
+use crate::c06::{enabled_ops, is_big, starts, Start};
 use crate::core::*;
 use crate::json::J;
 use crate::kv::*;
@@ -177,7 +177,7 @@ pub fn run(ctx: &Ctx, rep: &mut Report) {
         seen.insert((init.spec.clone(), init.digest));
         let mut all: Vec<(Vec<Op>, Spec)> = vec![(vec![], init.spec.clone())];
         let mut frontier = all.clone();
-        for _ in 0..a {
+        for _ in 0..(if is_big(st) { 1 } else { a }) {
             let mut work: Vec<(usize, Op)> = Vec::new();
             for (ni, (_, spec)) in frontier.iter().enumerate() {
                 for op in enabled_ops(spec, true) {
@@ -207,7 +207,7 @@ pub fn run(ctx: &Ctx, rep: &mut Report) {
         // twin runs
         let mut jobs: Vec<(usize, Vec<Op>)> = Vec::new();
         for (hi, (_, spec)) in all.iter().enumerate() {
-            for c in continuations(&m, spec, b) {
+            for c in continuations(&m, spec, if is_big(st) { 0 } else { b }) {
                 jobs.push((hi, c));
             }
         }
